@@ -2136,8 +2136,10 @@ namespace gch
         }
       }
 
+      // Note: The shortcut assigns, so it must not be used for types which cannot be assigned.
       template <typename A = alloc_ty, typename V = value_ty,
         typename std::enable_if<is_trivially_constructible<V>::value
+                            &&  std::is_copy_assignable<V>::value
                             &&! must_use_alloc_construct<A, V>::value>::type * = nullptr>
       GCH_CPP20_CONSTEXPR
       ptr
@@ -2153,6 +2155,7 @@ namespace gch
 
       template <typename A = alloc_ty, typename V = value_ty,
         typename std::enable_if<! is_trivially_constructible<V>::value
+                              ||! std::is_copy_assignable<V>::value
                               ||  must_use_alloc_construct<A, V>::value>::type * = nullptr>
       GCH_CPP20_CONSTEXPR
       ptr
